@@ -236,3 +236,108 @@ def flag_value(flags_json):
             v |= int(getattr(re, name))
         return v
     return 0
+
+
+def _first_chars(seq):
+    """set of ASCII chars that can start a match of the sequence, plus whether it is nullable"""
+    from . import regexnfa
+    first = set()
+    for op, av in list(seq):
+        if op is sre_c.AT:
+            continue
+        if op is sre_c.LITERAL:
+            return first | ({chr(av)} if av < 128 else set()), False
+        if op is sre_c.NOT_LITERAL:
+            return first | (set(regexnfa.UNIVERSE) - {chr(av)}), False
+        if op is sre_c.ANY:
+            return first | set(regexnfa.UNIVERSE), False
+        if op is sre_c.IN:
+            return first | set(regexnfa._class_chars(av, False)), False
+        if op is sre_c.SUBPATTERN:
+            f, nullable = _first_chars(av[-1])
+            first |= f
+            if not nullable:
+                return first, False
+            continue
+        if op is sre_c.BRANCH:
+            nullable_any = False
+            for alt in av[1]:
+                f, nl = _first_chars(alt)
+                first |= f
+                nullable_any = nullable_any or nl
+            if not nullable_any:
+                return first, False
+            continue
+        if op in (sre_c.MAX_REPEAT, sre_c.MIN_REPEAT) or str(op) == "POSSESSIVE_REPEAT":
+            mn, mx, sub = av
+            f, nl = _first_chars(sub)
+            first |= f
+            if mn > 0 and not nl:
+                return first, False
+            continue
+        return first, False
+    return first, True
+
+
+def _trailing_unbounded(seq):
+    """alphabets of unbounded repeats that can END a match of the sequence"""
+    from . import regexnfa
+    out = []
+    items = [it for it in list(seq) if it[0] is not sre_c.AT]
+    for op, av in reversed(items):
+        if op in (sre_c.MAX_REPEAT, sre_c.MIN_REPEAT):
+            mn, mx, sub = av
+            if mx == sre_c.MAXREPEAT:
+                f, _nl = _first_chars(sub)
+                si = seq_info(sub)
+                chars = alphabet_chars(si)
+                out.append(chars if chars is not None else set(regexnfa.UNIVERSE))
+            if mn == 0:
+                continue        # optional: what precedes can end the match too
+            break
+        if op is sre_c.SUBPATTERN:
+            out += _trailing_unbounded(av[-1])
+            _f, nl = _first_chars(av[-1])
+            if nl:
+                continue
+            break
+        if op is sre_c.BRANCH:
+            for alt in av[1]:
+                out += _trailing_unbounded(alt)
+            break
+        break
+    return out
+
+
+def catastrophic_repeats(pattern, flags=0):
+    """nested unbounded repetition with an ambiguous split -- `(x y*)+` where the next iteration can start with a character
+    y* could have taken, `(y+)*` -- makes a backtracking matcher take exponential time on a non-matching input.  Returns
+    human-readable descriptions (empty = none found)."""
+    try:
+        tree = sre_parse.parse(pattern, flags)
+    except Exception as e:
+        raise AnalysisError("regexast: cannot parse %r: %s" % (pattern, e))
+    found = []
+
+    def walk(seq):
+        for op, av in list(seq):
+            if op in (sre_c.MAX_REPEAT, sre_c.MIN_REPEAT):
+                mn, mx, sub = av
+                if mx == sre_c.MAXREPEAT:
+                    first, _nl = _first_chars(sub)
+                    for chars in _trailing_unbounded(sub):
+                        common = first & set(chars)
+                        if common:
+                            found.append("an unbounded repetition whose body ends in an unbounded repetition over %s and can "
+                                         "start again with one of the same characters (%s): every split of a long run is tried"
+                                         % ("".join(sorted(chars))[:24] + ("..." if len(chars) > 24 else ""),
+                                            "".join(sorted(common))[:12]))
+                            break
+                walk(sub)
+            elif op is sre_c.SUBPATTERN:
+                walk(av[-1])
+            elif op is sre_c.BRANCH:
+                for alt in av[1]:
+                    walk(alt)
+    walk(tree)
+    return found
